@@ -48,7 +48,10 @@ def gen_history(rng):
                 ops.append(['mutate', 'set', rng.randint(0, 3), rng.randint(90, 99)])
             else:
                 ops.append(['mutate', m])
-        elif r < 0.9:
+        elif r < 0.86:
+            # render the stored results (solver-level entry point), default or explicit format
+            ops.append(['csv', rng.choice([None, None, '%d', '%.3f', '%10.4e'])])
+        elif r < 0.93:
             ops.append(['suppress', rng.random() < 0.5])
         else:
             ops.append(['cutoff', rng.choice([None, 0, 1, 3])])
@@ -95,6 +98,7 @@ def run_impl(h):
     outs = []
     last = None
     csv_texts = [mod.EquationSolver.GenerateCSVtext('%d')]
+    rendered = {}
     for op in h['ops']:
         if op[0] == 'get':
             try:
@@ -122,8 +126,13 @@ def run_impl(h):
         elif op[0] == 'cutoff':
             mod.TimeSeriesCutoff = op[1]
             outs.append(None)
+        elif op[0] == 'csv':
+            t = mod.EquationSolver.GenerateCSVtext() if op[1] is None else mod.EquationSolver.GenerateCSVtext(op[1])
+            rendered.setdefault(op[1], []).append(t)
+            outs.append(None)
     csv_texts.append(mod.EquationSolver.GenerateCSVtext('%d'))
-    return {'outs': outs, 'before': before, 'after': snapshot(mod), 'csv': csv_texts}
+    return {'outs': outs, 'before': before, 'after': snapshot(mod), 'csv': csv_texts,
+            'rendered': [[k, v] for k, v in rendered.items()]}
 
 
 def run_impl_csv(c):
@@ -164,6 +173,25 @@ def oracle(h, res):
     if res['csv'][0] != res['csv'][1]:
         fails.append({'key': 'GenerateCSVtext:not-repeatable',
                       'what': 'GenerateCSVtext differs before/after the history', 'replay': {'kind': 'history', 'history': h}})
+    for fmt, texts in res.get('rendered', []):
+        ref = None
+        from sfc_models.utils import TimeSeriesHolder
+        if any(t != texts[0] for t in texts):
+            fails.append({'key': 'GenerateCSVtext:not-repeatable',
+                          'what': 'GenerateCSVtext(%r) gave different texts at different points of a history over the same stored series' % (fmt,),
+                          'replay': {'kind': 'history', 'history': h}})
+        # and the text is the one the requested (or default) format gives on the stored series
+        holder = TimeSeriesHolder('k')
+        for nm, vals in h['holders']['main']:
+            holder[nm] = list(vals)
+        want = '%.5g' if fmt is None else fmt
+        rows = texts[0].split('\n')[1:-1]
+        names = texts[0].split('\n')[0].split('\t') if texts[0] else []
+        n = min([len(v) for _, v in h['holders']['main']] or [0])
+        exp_rows = ['\t'.join(want % (dict(h['holders']['main'])[nm][i],) for nm in names) for i in range(n)]
+        if texts[0] and rows != exp_rows:
+            fails.append({'key': 'GenerateCSVtext:wrong-format', 'what': 'GenerateCSVtext(%r) rows %r, expected %r' % (fmt, rows[:2], exp_rows[:2]),
+                          'replay': {'kind': 'history', 'history': h}})
     cutoff0, suppress = h['cutoff0'], h['suppress']
     init = {g: dict(v) for g, v in h['holders'].items()}
     for op, out in zip(h['ops'], res['outs']):
@@ -216,6 +244,8 @@ def emit_history(h, res):
         coq_option(None if h['cutoff0'] is None else coq_nat(h['cutoff0'])), coq_bool(h['suppress']))
     ops = []
     for op in h['ops']:
+        if op[0] == 'csv':
+            continue
         if op[0] == 'get':
             ops.append('Get %s %s %s' % (coq_string(op[1]), coq_string(op[2]),
                                          coq_option(None if op[3] is None else coq_nat(op[3]))))
@@ -233,7 +263,9 @@ def emit_history(h, res):
         else:
             ops.append('SetCutoff %s' % coq_option(None if op[1] is None else coq_nat(op[1])))
     outs = []
-    for o in res['outs']:
+    for op_, o in zip(h['ops'], res['outs']):
+        if op_[0] == 'csv':
+            continue
         if o is None:
             outs.append('None')
         elif o[0] == 'ok':
